@@ -3,7 +3,10 @@ The reference bounded list of C11: "a `collections.deque(maxlen=…)` whose item
 are stored values".  No rows, rowids, queue keys, counters, transactions or
 value-file names — only the list of entries (front first) and the bound.
 `DC/Properties/C11_Refine.lean` proves that the Deque model of
-`DC/Model/Layers.lean` refines it for every history of the calls below.
+`DC/Model/Layers.lean` refines it for every history of the calls below
+(`DOp`: append, appendleft, extend, extendleft, pop, popleft, peek, peekleft, len, clear,
+indexing, assignment and deletion by index, iteration, count, remove, comparison with a list,
+rotate, reverse, the maxlen setter).
 
 Reading guide: `DList` is the state; an item is a `Spec.Entry` (the stored
 representation of a value, as in `DC/Model/Spec.lean`: mode, database cell,
@@ -97,6 +100,115 @@ def getitem (m : DList) (E : Externals) (cfg : Cfg) (i : Int) : DList × Out :=
 def iter (m : DList) (E : Externals) (cfg : Cfg) (rev : Bool) : DList × Out :=
   (m, .list ((if rev then m.items.reverse else m.items).map (fun e => valueOf e E cfg)))
 
+/-- `extend(vs)` and `deque += vs` (`left = false`) / `extendleft(vs)` (`left = true`): one
+`append` / `appendleft` per value, in the order given (so `extendleft` leaves the values in reverse
+order at the front, and on a full deque every value pushes one out at the other end).  The first
+value that cannot be stored raises UnicodeEncodeError: the values before it stay, the ones after it
+are not looked at. -/
+def extend (m : DList) (E : Externals) (cfg : Cfg) (vs : List PyVal) (left : Bool) : DList × Out :=
+  match vs with
+  | [] => (m, .none)
+  | v :: vs =>
+    if storable E cfg v then extend (append m E cfg v left).1 E cfg vs left
+    else (m, .exc "UnicodeEncodeError")
+
+/-- the position a Python index denotes in a list of `len` items: `i` itself for `0 ≤ i < len`,
+`len + i` for `-len ≤ i < 0`, nothing otherwise (IndexError) -/
+def position (len : Nat) (i : Int) : Option Nat :=
+  if 0 ≤ i then (if i < (len : Int) then some i.toNat else none)
+  else if -(len : Int) ≤ i then some ((len : Int) + i).toNat
+  else none
+
+/-- `deque[i] = v`: IndexError when `i` is out of range; otherwise the item at that position is
+replaced (UnicodeEncodeError, and nothing changes, when the value cannot be stored) -/
+def setitem (m : DList) (E : Externals) (cfg : Cfg) (i : Int) (v : PyVal) : DList × Out :=
+  match position m.items.length i with
+  | none => (m, .exc "IndexError")
+  | some p =>
+    match entryFor E cfg v with
+    | none => (m, .exc "UnicodeEncodeError")
+    | some e => ({ m with items := m.items.set p e }, .none)
+
+/-- `del deque[i]`: IndexError when `i` is out of range; otherwise the item at that position is
+removed, the others keep their order -/
+def delitem (m : DList) (i : Int) : DList × Out :=
+  match position m.items.length i with
+  | none => (m, .exc "IndexError")
+  | some p => ({ m with items := m.items.eraseIdx p }, .none)
+
+/-- is the item equal to `v`?  Python's `v == item` on the value of the item (`pyEq`: numbers
+compare by value across int and float, NaN equals nothing, text and bytes by content) -/
+def holds (E : Externals) (cfg : Cfg) (v : PyVal) (e : Spec.Entry) : Bool :=
+  match valueOf e E cfg with
+  | .val x => pyEq v x
+  | _ => false
+
+/-- `deque.count(v)`: the number of items equal to `v` -/
+def count (m : DList) (E : Externals) (cfg : Cfg) (v : PyVal) : DList × Out :=
+  (m, .int (m.items.filter (holds E cfg v)).length)
+
+/-- `deque.remove(v)`: the first item equal to `v` is removed; ValueError when there is none -/
+def remove (m : DList) (E : Externals) (cfg : Cfg) (v : PyVal) : DList × Out :=
+  match m.items.findIdx? (holds E cfg v) with
+  | none => (m, .exc "ValueError")
+  | some p => ({ m with items := m.items.eraseIdx p }, .none)
+
+/-- the values of the items, front first -/
+def values (m : DList) (E : Externals) (cfg : Cfg) : List PyVal :=
+  outVals (m.items.map (fun e => valueOf e E cfg))
+
+/-- `deque == that`, `!=`, `<`, `<=`, `>`, `>=` for a sequence `that`, as Python compares
+sequences (`DC.cmpSeq`, DC/Model/Layers.lean): the first pair of values that are not equal decides
+— `==` is False, `!=` is True, an ordering is the ordering of that pair, TypeError when the two
+values have no order —, and when there is no such pair the lengths are compared -/
+def compare (m : DList) (E : Externals) (cfg : Cfg) (op : CmpOp) (that : List PyVal) : DList × Out :=
+  match cmpSeq op m.items.length that.length (values m E cfg) that with
+  | some b => (m, .bool b)
+  | none => (m, .exc "TypeError")
+
+/-- one step to the right: the last item moves to the front (`d.appendleft(d.pop())`) -/
+def rotr {α} (l : List α) : List α :=
+  match l.getLast? with
+  | none => l
+  | some x => x :: l.dropLast
+
+/-- one step to the left: the first item moves to the back (`d.append(d.popleft())`) -/
+def rotl {α} (l : List α) : List α :=
+  match l with
+  | [] => []
+  | x :: t => t ++ [x]
+
+/-- `f` applied `k` times -/
+def iter_ {α} (f : α → α) : Nat → α → α
+  | 0, a => a
+  | k + 1, a => iter_ f k (f a)
+
+/-- `deque.rotate(steps)`: `steps` single steps to the right, for negative `steps` `-steps` single
+steps to the left; `len` steps give the same list again, so `steps mod len` of them are made;
+nothing happens on an empty deque -/
+def rotate (m : DList) (steps : Int) : DList × Out :=
+  if m.items.length = 0 then (m, .none)
+  else if 0 ≤ steps then
+    ({ m with items := iter_ rotr (steps % (m.items.length : Int)).toNat m.items }, .none)
+  else
+    ({ m with items := iter_ rotl ((-steps) % (m.items.length : Int)).toNat m.items }, .none)
+
+/-- `deque.reverse()`: the items in reverse order -/
+def reverse (m : DList) : DList × Out := ({ m with items := m.items.reverse }, .none)
+
+/-- `deque.maxlen = k`: the bound becomes `k`; a longer list loses items at the FRONT until it
+fits — it keeps its last `k` items, as `collections.deque(d, maxlen=k)` does -/
+def setMaxlen (m : DList) (k : Nat) : DList × Out :=
+  ({ items := m.items.drop (m.items.length - k), maxlen := some k }, .none)
+
+/-- storing the value of the item again gives the same stored representation: true of every item
+when the serializer is deterministic and `loads` inverts it; `rotate` and `reverse` move items by
+reading their value and storing it again -/
+def restores (E : Externals) (cfg : Cfg) (e : Spec.Entry) : Bool :=
+  match valueOf e E cfg with
+  | .val v => decide (entryFor E cfg v = some e)
+  | _ => false
+
 end DC.DSpec
 
 namespace DC
@@ -113,6 +225,16 @@ inductive DOp where
   | clear
   | getitem (E : Externals) (now : Int) (i : Int)
   | iter (E : Externals) (now : Int) (rev : Bool)
+  | extend (E : Externals) (now : Int) (vs : List PyVal)
+  | extendleft (E : Externals) (now : Int) (vs : List PyVal)
+  | setitem (E : Externals) (now : Int) (i : Int) (v : PyVal)
+  | delitem (E : Externals) (now : Int) (i : Int)
+  | count (E : Externals) (now : Int) (v : PyVal)
+  | remove (E : Externals) (now : Int) (v : PyVal)
+  | compare (E : Externals) (now : Int) (op : CmpOp) (that : List PyVal)
+  | rotate (E : Externals) (now : Int) (steps : Int)
+  | reverse (E : Externals) (now : Int)
+  | setMaxlen (E : Externals) (now : Int) (k : Nat)
 
 namespace Deque
 
@@ -128,6 +250,16 @@ def step (d : Deque) : DOp → Deque × Out
   | .clear => d.clear
   | .getitem E now i => d.getitem E now i
   | .iter E now rev => d.iterVals E now rev
+  | .extend E now vs => d.extend E now vs false
+  | .extendleft E now vs => d.extend E now vs true
+  | .setitem E now i v => d.setitem E now i v
+  | .delitem E now i => d.delitem E now i
+  | .count E now v => d.countOf E now v
+  | .remove E now v => d.remove E now v
+  | .compare E now op that => d.compare E now op that
+  | .rotate E now steps => d.rotate E now steps
+  | .reverse E now => d.reverse E now
+  | .setMaxlen E now k => d.setMaxlen E now k
 
 /-- the Deque after a finite history -/
 def run (d : Deque) (ops : List DOp) : Deque := ops.foldl (fun d op => (d.step op).1) d
@@ -153,6 +285,16 @@ def step (m : DList) (cfg : Cfg) : DOp → DList × Out
   | .clear => clear m
   | .getitem E _ i => getitem m E cfg i
   | .iter E _ rev => iter m E cfg rev
+  | .extend E _ vs => extend m E cfg vs false
+  | .extendleft E _ vs => extend m E cfg vs true
+  | .setitem E _ i v => setitem m E cfg i v
+  | .delitem _ _ i => delitem m i
+  | .count E _ v => count m E cfg v
+  | .remove E _ v => remove m E cfg v
+  | .compare E _ op that => compare m E cfg op that
+  | .rotate _ _ steps => rotate m steps
+  | .reverse _ _ => reverse m
+  | .setMaxlen _ _ k => setMaxlen m k
 
 /-- the bounded list after a history -/
 def run (m : DList) (cfg : Cfg) (ops : List DOp) : DList := ops.foldl (fun m op => (step m cfg op).1) m
@@ -164,9 +306,59 @@ def outs (m : DList) (cfg : Cfg) : List DOp → List Out
 
 end DSpec
 
-/-- the calls that look an item up again by its key (`deque[i]`, iteration) -/
-def DOp.byKey : DOp → Bool
+/-- the calls of the first refinement theorem (one queue key at most per call) -/
+def DOp.basic : DOp → Bool
+  | .append .. | .appendleft .. | .pop .. | .popleft .. | .peek .. | .peekleft .. | .len | .clear
   | .getitem .. | .iter .. => true
   | _ => false
+
+/-- how many units of the key budget a call may use on a deque of `len` items: the number of
+`append` / `appendleft` steps it performs (every one of them hands out a new queue key); one unit
+for every call of the first refinement theorem, as there -/
+def DOp.cost (len : Nat) : DOp → Nat
+  | .extend _ _ vs | .extendleft _ _ vs => vs.length
+  | .rotate _ _ steps =>
+    if len = 0 then 0 else if 0 ≤ steps then (steps % (len : Int)).toNat else ((-steps) % (len : Int)).toNat
+  | .reverse _ _ => len
+  | _ => 1
+
+namespace DSpec
+
+/-- the budget a history uses, from the bounded list `m` on -/
+def costs (m : DList) (cfg : Cfg) : List DOp → Nat
+  | [] => 0
+  | op :: ops => op.cost m.items.length + costs (step m cfg op).1 cfg ops
+
+end DSpec
+
+/-- the calls that look an item up again by its key (`deque[i]`, iteration, assignment and
+deletion by index, `count`, `remove`, the comparisons, `reverse`) -/
+def DOp.byKey : DOp → Bool
+  | .getitem .. | .iter .. | .setitem .. | .delitem .. | .count .. | .remove .. | .compare ..
+  | .reverse .. => true
+  | _ => false
+
+/-- the calls that move items by reading their value and storing it again (`rotate`, `reverse`)
+ask that every item of the list `m` they are applied to is stored again as it was
+(`DSpec.restores`, with the codec observations of that call) -/
+def DOp.restoreOk (m : DSpec.DList) (cfg : Cfg) : DOp → Bool
+  | .rotate E _ _ | .reverse E _ => m.items.all (DSpec.restores E cfg)
+  | _ => true
+
+/-- the codec observations of a call (`len` and `clear` have none) -/
+def DOp.codec : DOp → Option Externals
+  | .append E .. | .appendleft E .. | .pop E .. | .popleft E .. | .peek E .. | .peekleft E ..
+  | .getitem E .. | .iter E .. | .extend E .. | .extendleft E .. | .setitem E .. | .delitem E ..
+  | .count E .. | .remove E .. | .compare E .. | .rotate E .. | .reverse E .. | .setMaxlen E .. => some E
+  | .len | .clear => none
+
+namespace DSpec
+
+/-- `DOp.restoreOk` for every call of a history, from the bounded list `m` on -/
+def restorable (m : DList) (cfg : Cfg) : List DOp → Bool
+  | [] => true
+  | op :: ops => op.restoreOk m cfg && restorable (step m cfg op).1 cfg ops
+
+end DSpec
 
 end DC
